@@ -203,7 +203,11 @@ def run(ctx):
             # the text handed to the splitter: a family call one of whose arguments is the accumulator of `+=` / push_str
             accs = {}
             for e in p.events:
-                if e["k"] == "call" and not e.get("inlined") and e["callee"].split("::")[-1] in ("add_assign", "push_str") and e["args"]:
+                if e["k"] == "call" and not e.get("inlined") and e["args"] and (
+                        e["callee"].split("::")[-1] in ("add_assign", "push_str") or
+                        # any other way of putting text into a String (a single character, an insertion): what goes in must
+                        # come from a line too (C21-agent16: a blank pushed between joined lines)
+                        ("String::" in e["callee"] and e["callee"].split("::")[-1] in ("push", "insert", "insert_str", "extend"))):
                     accs.setdefault(strip(e["args"][0]), []).append(e)
             if not accs:
                 continue
@@ -228,7 +232,7 @@ def run(ctx):
                 items = []
                 for e in apps:
                     n3 += 1
-                    src = strip(e["args"][1])
+                    src = strip(e["args"][-1])
                     nx = []
                     mentions(src, lambda t: nx.append(t) or False if (t[0] == "call" and t[1].endswith("::next")) else False)
                     if not nx:
